@@ -182,8 +182,8 @@ func rtMeta(sig string, carve []string) vc.Meta {
 		Rule:        "case = one stream history of " + sig + " batches (phase scripts: random / zero-then-nonzero / nonzero-then-zero / repeat / ramp / singles / sparse-nonzero / empty-mix, or an adversarial near-identical-container template) sent through one Producer/Consumer pair; every batch decoded and compared as a canonical multiset. Non-trivial = >=2 batches, or >=1 schema update observed, or >=2 distinct containers. Distinct = distinct fingerprint (script, #batches, #containers, set of optional columns that appeared, #schema updates).",
 		Assumptions: rtAssumptions,
 		Gates: map[string]map[string]int{
-			"quick":    {"obs.schema_update": 50, "optional_columns_seen_appearing": 20, "batches": 500, "near_limit_batches": 6, "long_stream_batches": 800},
-			"thorough": {"obs.schema_update": 500, "optional_columns_seen_appearing": 22, "batches": 10000, "near_limit_batches": 18, "long_stream_batches": 9000},
+			"quick":    {"obs.schema_update": 50, "optional_columns_seen_appearing": 20, "batches": 500, "near_limit_batches": 6, "long_stream_batches": 800, "wide_batches": 60},
+			"thorough": {"obs.schema_update": 500, "optional_columns_seen_appearing": 22, "batches": 10000, "near_limit_batches": 18, "long_stream_batches": 9000, "wide_batches": 200},
 		},
 		Excluded: carve,
 	}
@@ -246,6 +246,22 @@ func runRoundTrip(t *testing.T, prop string, sig canon.Signal) {
 		c.Count("long_stream_batches", int64(nb))
 		c.Max("max_consumer_memory_inuse_on_a_long_stream_bytes", m.InuseMax)
 		c.Sample(map[string]any{"script": h.Script, "consumer_memory_limit": 4 << 20, "max_consumer_memory_inuse": m.InuseMax})
+	})
+	// every dictionary-encodable field unique per item (own resource and scope per item): all dictionary
+	// columns of every record type cross their index width in the same build; staggered: one after the other
+	r.Layer("wide", e.Pick(3, 12), func(c *vc.Case) {
+		var h *History
+		switch c.Idx % 3 {
+		case 0:
+			h = WideHistory(sig, 3, 300, 0)
+		case 1:
+			h = WideHistory(sig, 2, 700, 0)
+		default:
+			h = WideHistory(sig, 60, 100, 1)
+		}
+		roundTripHistory(c, h, DefaultOpts(), prop)
+		c.Count("wide_batches", int64(h.Len()))
+		c.Sample(map[string]any{"script": h.Script})
 	})
 	r.Layer("big", e.Pick(6, 30), func(c *vc.Case) {
 		g := gen.New(c.R, gen.DValid)
